@@ -1,0 +1,28 @@
+// SPDX-FileCopyrightText: 2026 The Pion community <https://pion.ly>
+// SPDX-License-Identifier: MIT
+
+//go:build verif
+
+package rfc8888
+
+import (
+	"time"
+
+	"github.com/pion/rtcp"
+)
+
+// VerifBuildRaw calls the unexported streamLog.metricsAfter on every stream
+// with the given per-stream block budget (no size arithmetic). It exists only
+// for the external verification harness (build tag verif) so that odd and
+// uncapped budgets reach metricsAfter.
+func (r *Recorder) VerifBuildRaw(now time.Time, budget int64) *rtcp.CCFeedbackReport {
+	report := &rtcp.CCFeedbackReport{
+		SenderSSRC:   r.ssrc,
+		ReportBlocks: []rtcp.CCFeedbackReportBlock{},
+	}
+	for _, log := range r.streams {
+		report.ReportBlocks = append(report.ReportBlocks, log.metricsAfter(now, budget))
+	}
+
+	return report
+}
